@@ -1335,7 +1335,8 @@ class Engine:
                 continue
             if not any(str(t).startswith("classobj") for t in tags):
                 # a class-layer instance is a Pregex of its inferred type for a callee that does not distinguish them
-                strip = lambda t: t.split(":", 1)[1] if t.startswith("classobj:") else t
+                strip = lambda t: {"Any": "Class", "Word": "Class", "ButWord": "Class"}.get(t.split(":", 1)[1], t.split(":", 1)[1]) \
+                    if t.startswith("classobj:") else t
                 tag = tuple(strip(t) for t in tag) if isinstance(tag, tuple) else strip(tag)
             if isinstance(tag, tuple):            # *args: a tuple of operand tags
                 import itertools
@@ -1381,7 +1382,8 @@ class Engine:
                 return None
             shape = (getattr(v, "info", None) or {}).get("shape")
             if "_Class__is_negated" in f:
-                return f"classobj:{ty.name}"
+                special = {"Any": "Any", "AnyWordChar": "Word", "AnyButWordChar": "ButWord"}.get(getattr(v.cls, "name", None))
+                return f"classobj:{special or ty.name}"
             return f"Group:{shape}" if ty.name == "Group" and shape else ty.name
         return None
 
